@@ -509,7 +509,7 @@ func textBoundary(r *ev.Run, kind storeKind, ks ksrig.FullKeyStore) {
 		r.Inconclusive(fmt.Sprintf("text boundary: store %s could not be built: %v", kind.name(), err))
 		return
 	}
-	defer g.close()
+	defer g.discard()
 	entries := []struct {
 		l      layer
 		tokN   string
